@@ -1008,9 +1008,43 @@ impl<'a> Lifter<'a> {
                         }
                     }
                 }
+                // tolerant lifts: a `?` inside a branch of the initialiser would be hoisted to the branch only; such
+                // a binding is made opaque instead (L23)
+                let nested_try = self.tolerant && {
+                    struct NT { depth: usize, found: bool }
+                    impl<'ast> syn::visit::Visit<'ast> for NT {
+                        fn visit_expr_match(&mut self, m: &'ast syn::ExprMatch) {
+                            syn::visit::Visit::visit_expr(self, &m.expr);
+                            self.depth += 1;
+                            for a in &m.arms {
+                                syn::visit::Visit::visit_expr(self, &a.body);
+                            }
+                            self.depth -= 1;
+                        }
+                        fn visit_expr_if(&mut self, i: &'ast syn::ExprIf) {
+                            syn::visit::Visit::visit_expr(self, &i.cond);
+                            self.depth += 1;
+                            syn::visit::Visit::visit_block(self, &i.then_branch);
+                            if let Some((_, e)) = &i.else_branch {
+                                syn::visit::Visit::visit_expr(self, e);
+                            }
+                            self.depth -= 1;
+                        }
+                        fn visit_expr_try(&mut self, t: &'ast syn::ExprTry) {
+                            if self.depth > 0 {
+                                self.found = true;
+                            }
+                            syn::visit::visit_expr_try(self, t);
+                        }
+                        fn visit_expr_closure(&mut self, _: &'ast syn::ExprClosure) {}
+                    }
+                    let mut nt = NT { depth: 0, found: false };
+                    syn::visit::Visit::visit_expr(&mut nt, &init.expr);
+                    nt.found
+                };
                 let x = match &terms {
                     Some((tname, _)) => v(format!("rsum({tname}.len, {tname}.at)"), "real"),
-                    None => match self.expr(&init.expr) {
+                    None => match (if nested_try { Err("`?` inside a branch of the initialiser".to_string()) } else { self.expr(&init.expr) }) {
                         Ok(x) => x,
                         Err(e) => {
                             // L20: an iterator chain outside the supported forms, collected into a variable whose
@@ -1032,6 +1066,15 @@ impl<'a> Lifter<'a> {
                                     self.note("L20", l.span(), &format!("unsupported iterator chain collected into `{var}`: havoc'd ({e})"));
                                     let plist: Vec<String> = self.params.iter().map(|(n, _)| n.clone()).collect();
                                     v(format!("{hname}({})", plist.join(", ")), &ty)
+                                }
+                                _ if self.tolerant && matches!(&*init.expr, syn::Expr::Closure(_)) && self.shallow_closure_capture(&init.expr).is_some() => {
+                                    // L17f for closures: the observed call sits in a closure bound here
+                                    let a = self.shallow_closure_capture(&init.expr).unwrap();
+                                    self.note("L17f", l.span(), "observable taken from a call inside a closure body: the argument only mentions parameters of the function that are never rebound");
+                                    if self.ret_ty.starts_with("Result<") {
+                                        return Ok(v(format!("{{ let cap__ = {}; Ok::<{}, LErr>(cap__) }}", a.text, a.ty), &format!("Result<{}, LErr>", a.ty)));
+                                    }
+                                    return Ok(v(format!("{{ let cap__ = {}; cap__ }}", a.text), &a.ty));
                                 }
                                 _ if self.tolerant => {
                                     // L23 (tolerant lifts, observe mode): a binding whose initialiser is outside the subset is
@@ -1523,6 +1566,66 @@ impl<'a> Lifter<'a> {
             }
         }
         Ok(())
+    }
+
+    /// L17f for closures: if the observable is `@callee.k` and the closure body calls `callee`, return the lifted k-th
+    /// argument provided it only mentions function parameters that are not closure parameters and are never assigned
+    /// or rebound inside the closure
+    fn shallow_closure_capture(&mut self, e: &syn::Expr) -> Option<Val> {
+        let syn::Expr::Closure(cl) = e else { return None };
+        let obs = self.observe.clone()?;
+        let rest_o = obs.strip_prefix('@')?;
+        let (fname, k) = rest_o.split_once('.')?;
+        let fname = fname.split('#').next().unwrap_or("").to_string();
+        let k: usize = k.parse().ok()?;
+        struct FindCall<'x> { name: String, found: Option<&'x syn::ExprCall> }
+        impl<'ast> syn::visit::Visit<'ast> for FindCall<'ast> {
+            fn visit_expr_call(&mut self, c: &'ast syn::ExprCall) {
+                if self.found.is_none() {
+                    if let syn::Expr::Path(p) = &*c.func {
+                        if p.path.segments.last().map(|s| s.ident == self.name).unwrap_or(false) {
+                            self.found = Some(c);
+                        }
+                    }
+                }
+                syn::visit::visit_expr_call(self, c);
+            }
+        }
+        let mut fc = FindCall { name: fname, found: None };
+        syn::visit::Visit::visit_expr(&mut fc, &cl.body);
+        let c = fc.found?;
+        let arg = c.args.iter().nth(k)?;
+        let mut ids = Vec::new();
+        struct Ids<'y>(&'y mut Vec<String>);
+        impl<'ast, 'y> syn::visit::Visit<'ast> for Ids<'y> {
+            fn visit_path(&mut self, p: &'ast syn::Path) {
+                if let Some(i) = p.get_ident() {
+                    self.0.push(i.to_string());
+                }
+            }
+        }
+        syn::visit::Visit::visit_expr(&mut Ids(&mut ids), arg);
+        let mut bound = Vec::new();
+        struct PB<'z>(&'z mut Vec<String>);
+        impl<'ast, 'z> syn::visit::Visit<'ast> for PB<'z> {
+            fn visit_pat_ident(&mut self, i: &'ast syn::PatIdent) {
+                self.0.push(i.ident.to_string());
+            }
+            fn visit_expr_assign(&mut self, a: &'ast syn::ExprAssign) {
+                if let syn::Expr::Path(p) = &*a.left {
+                    if let Some(i) = p.path.get_ident() {
+                        self.0.push(i.to_string());
+                    }
+                }
+                syn::visit::visit_expr_assign(self, a);
+            }
+        }
+        syn::visit::Visit::visit_expr(&mut PB(&mut bound), e);
+        let is_param = |n: &String| self.params.iter().any(|(p, _)| p == n) && !self.rebound_params.contains(n);
+        if !ids.iter().all(|i| is_param(i) && !bound.contains(i)) {
+            return None;
+        }
+        self.expr(arg).ok()
     }
 
     /// L17c: when one branch of a join ends in a captured call argument, the other branches (which would return the
